@@ -28,6 +28,7 @@ type HarnessSpec struct {
 	TimeoutQ  int            `json:"timeout_quick,omitempty"`
 	TimeoutT  int            `json:"timeout_thorough,omitempty"`
 	Note      string         `json:"note,omitempty"`
+	Optional  bool           `json:"optional,omitempty"` // white-box harness: skipped when it does not compile against the tree
 }
 
 type CheckSpec struct {
@@ -100,7 +101,7 @@ func (nr *nativeRunner) build(g *Engine) error {
 	sb.WriteString("}\n")
 	reg := filepath.Join(nr.workDir, "registry.go")
 	os.WriteFile(reg, []byte(sb.String()), 0o644)
-	ov := overlayFiles(true)
+	ov := overlayFiles(true, g.only)
 	ov[filepath.Join(repoDir, "zz_verif_registry.go")] = reg
 	ovj, _ := json.Marshal(map[string]interface{}{"Replace": ov})
 	ovp := filepath.Join(nr.workDir, "overlay.json")
@@ -270,12 +271,49 @@ func cmdCheck(args []string) int {
 		cfg.StepBudget = 20_000_000
 		cfg.CrossCheck = 250
 	}
-	g, err := loadEngine(cfg)
+	// load only the harness files this property needs; optional (white-box) harnesses are dropped
+	// when they do not compile against the current tree
+	files := func(skipOptional bool) map[string]bool {
+		m := map[string]bool{}
+		for _, hs := range spec.Harnesses {
+			if skipOptional && hs.Optional {
+				continue
+			}
+			if f := harnessFileOf(hs.Fn); f != "" {
+				m[f] = true
+			}
+		}
+		return m
+	}
+	var skipped []string
+	g, err := loadEngineFiles(cfg, files(false))
+	if err != nil {
+		hasOpt := false
+		for _, hs := range spec.Harnesses {
+			hasOpt = hasOpt || hs.Optional
+		}
+		if hasOpt {
+			if g2, err2 := loadEngineFiles(cfg, files(true)); err2 == nil {
+				g, err = g2, nil
+				var keep []HarnessSpec
+				for _, hs := range spec.Harnesses {
+					if hs.Optional {
+						skipped = append(skipped, hs.Fn)
+						fmt.Fprintf(os.Stderr, "[%s] white-box harness %s does not compile against this tree: skipped\n", prop, hs.Fn)
+					} else {
+						keep = append(keep, hs)
+					}
+				}
+				spec.Harnesses = keep
+			}
+		}
+	}
 	if err != nil {
 		fmt.Printf("INCONCLUSIVE property=%s reason=cannot load/encode /repo: %v\n", prop, err)
 		writeEvidence(prop, tier, seed, nil, spec, time.Since(t0), 0, []string{"load error: " + err.Error()}, 0, nil)
 		return 2
 	}
+	spec.Assumptions = append(spec.Assumptions, skippedNote(skipped)...)
 	nworkers := 16
 	if v, _ := strconv.Atoi(os.Getenv("VERIF_WORKERS")); v > 0 {
 		nworkers = v
@@ -690,3 +728,10 @@ func maxInt(a, b int) int {
 	return b
 }
 
+
+func skippedNote(skipped []string) []string {
+	if len(skipped) == 0 {
+		return nil
+	}
+	return []string{"white-box harnesses skipped because they do not compile against this tree: " + strings.Join(skipped, ", ")}
+}
